@@ -31,6 +31,8 @@ def run_sched(ch, nfetch, max_clients, late, tpat="same"):
             # "last-short": the most recently submitted fetch has the shortest timeout, so that a queued
             # request that is NOT at the head of the queue can expire first
             ct = 2 if (tpat == "last-short" and i == nfetch - 1) else 5
+            if tpat == "first-ct0" and i == 0:
+                ct = 0          # no separate connect timeout: the request timeout (10 s) alone bounds the whole fetch
             f = client.fetch(HTTPRequest("http://h%d.example/" % i, connect_timeout=ct, request_timeout=10),
                              raise_error=False)
             futs.append(f)
@@ -50,6 +52,10 @@ def run_sched(ch, nfetch, max_clients, late, tpat="same"):
             if len(inprog) > max_clients:
                 problems.append(("over-max_clients", "after %r: %d fetches in progress %r, max_clients %d"
                                  % (ev, len(inprog), sorted(inprog), max_clients)))
+            waiting = sum(1 for f in futs if not f.done())
+            if len(w.loop.timers()) < waiting:
+                problems.append(("timeout-not-armed", "after %r: %d fetches pending but only %d timers scheduled: a fetch "
+                                 "that hangs now would never complete" % (ev, waiting, len(w.loop.timers()))))
             if started != sorted(started) or len(set(started)) != len(started):
                 problems.append(("start-order", "connections were opened in order %r" % (started,)))
         observe("submit")
@@ -360,7 +366,7 @@ class C09(Check):
         for n in (2, 3):
             for mc in (1, 2):
                 for late in (False, True):
-                    for tpat in ("same", "last-short"):
+                    for tpat in ("same", "last-short", "first-ct0"):
                         parts.append(("sched", n, mc, late, tpat))
         parts += [("redir", i, 24) for i in range(24)]
         return parts
